@@ -724,11 +724,77 @@ func (o *osapInfo) coversAll(l *Loop, edgePtr ssa.Value) (bool, string) {
 
 // ---------------------------------------------------------------- R-DP-BACK
 
+// walkCoversPath: the loop of Parse that turns the path into sequences visits every element of the path slice:
+// its index starts at len(path) − 1, steps by −1, and the loop is left only with the index below 0.
+func (c *Ctx) walkCoversPath(o *osapInfo) {
+	parse := o.p.Parse
+	fi := c.info(parse)
+	for _, e := range c.emitsIn(parse) {
+		l := fi.loopOf(e.Block)
+		if l == nil {
+			continue
+		}
+		key := e.Key + ":walk-all"
+		// the path slice: the base of an element load F[j] in the loop with j a header φ
+		ok := false
+		why := "no index φ over the path slice found in the loop of the emission"
+		for _, in := range l.Header.Instrs {
+			ph, isPhi := in.(*ssa.Phi)
+			if !isPhi {
+				break
+			}
+			if !isIntType(ph.Type()) {
+				continue
+			}
+			var base ssa.Value
+			for b := range l.Blocks {
+				for _, bin := range b.Instrs {
+					if ia, isIA := bin.(*ssa.IndexAddr); isIA && stripConv(ia.Index) == ssa.Value(ph) {
+						base = ia.X
+					}
+				}
+			}
+			if base == nil {
+				continue
+			}
+			okInit, okStep := false, true
+			for i, p := range l.Header.Preds {
+				if l.Blocks[p] {
+					if !fi.lin(ph.Edges[i]).eq(linAtom(ph.Name()).addc(-1)) {
+						okStep = false
+					}
+				} else if fi.lin(ph.Edges[i]).eq(fi.lenOf(base).addc(-1)) {
+					okInit = true
+				}
+			}
+			// left only below 0: on every exit edge of the header the conditions contradict φ ≥ 0
+			okExit := true
+			nExit := 0
+			for _, sc := range l.Header.Succs {
+				if l.Blocks[sc] {
+					continue
+				}
+				nExit++
+				if !fi.refute(fi.edgeConds(l.Header, sc), []Fact{{linAtom(ph.Name()).scale(-1), LE}}, 0) {
+					okExit = false
+				}
+			}
+			if okInit && okStep && okExit && nExit > 0 {
+				ok = true
+			} else {
+				why = fmt.Sprintf("the walk over the path does not cover it (starts at len−1: %v, steps by −1: %v, left only below 0: %v)", okInit, okStep, okExit && nExit > 0)
+			}
+		}
+		c.check(ok, key, e.Pos, "the loop that emits the path visits every element of it (index from len−1 down to 0)", why+": a step of the minimum-cost path that is not visited is not emitted — its bytes become trailing literals and the block is no longer a minimum-cost parse")
+	}
+}
+
 func ruleDPBack(c *Ctx) {
 	o := c.osapOrFail("osap")
 	if o == nil {
 		return
 	}
+	c.walkCoversPath(o)
 	fi := o.dfi
 	name := fnName(o.dp)
 	// backtrack loop: header phi i with init n, back value i − load(d[i].F)
@@ -923,6 +989,41 @@ func ruleCostTable(c *Ctx) {
 	o := c.osapOrFail("osap")
 	if o == nil {
 		return
+	}
+	// C11 fixes one value of the cost function: a literal (offset 0) costs 9 bits. In the exported cost function
+	// (two uint32 parameters, the second the offset) every return under offset == 0 returns 9·m (m the first parameter), and
+	// there is such a return.
+	if xz := c.lzFunc("XZCost"); xz != nil && len(xz.Params) == 2 {
+		xfi := c.info(xz)
+		n9, bad := 0, ""
+		for _, b := range xz.Blocks {
+			r, ok := b.Instrs[len(b.Instrs)-1].(*ssa.Return)
+			if !ok || len(r.Results) != 1 {
+				continue
+			}
+			zero := false
+			for _, w := range xfi.flagWays(b) {
+				for _, cd := range w {
+					u := unNot(cd)
+					if bo, isBo := u.V.(*ssa.BinOp); isBo && (bo.Op == token.EQL || bo.Op == token.NEQ) {
+						if (bo.X == ssa.Value(xz.Params[1]) && isConstZero(bo.Y)) || (bo.Y == ssa.Value(xz.Params[1]) && isConstZero(bo.X)) {
+							if (bo.Op == token.EQL) == u.True {
+								zero = true
+							}
+						}
+					}
+				}
+			}
+			if !zero {
+				continue
+			}
+			if xfi.lin(r.Results[0]).eq(xfi.lin(xz.Params[0]).scale(9)) {
+				n9++
+			} else {
+				bad = c.pos(r.Pos())
+			}
+		}
+		c.check(n9 > 0 && bad == "", "lz.XZCost:literal-9", xz.Pos(), "a run of m literals (offset 0) costs 9·m bits", "XZCost does not return 9·m for offset 0 on every way (C11: XZCost(1,0) = 9 bits per literal): the DP weighs literals against matches with another price than the property names")
 	}
 	if o.p.Cfg == nil {
 		c.fail("osap:cost-table", token.NoPos, "config type of the optimizing parser not found")
@@ -1375,6 +1476,109 @@ func ruleSegCall(c *Ctx) {
 		okPair = true
 	}
 	c.check(okPair, name+":segments:tables", call.Pos(), "sa = Sort(t), lcp = LCP(t, sa) for the same text t", "the suffix array and LCP table passed to suffix.Segments are not computed from the same text")
+	// the builder returns in front of the Segments call only when there is no data: on every return that the call
+	// does not dominate the conditions contradict len(data) ≥ 1 for a []byte the function reads
+	var datas []Lin
+	for _, b := range o.builder.Blocks {
+		for _, in := range b.Instrs {
+			if ld, ok := in.(*ssa.UnOp); ok && ld.Op == token.MUL && isByteSlice(ld.Type()) {
+				if f := fieldOfAddr(ld.X); f != nil && f.Name() == "Data" {
+					datas = appendLin(datas, fi.lenOf(ld))
+				}
+			}
+		}
+	}
+	okEarly := true
+	nEarly := 0
+	for _, b := range o.builder.Blocks {
+		if _, isRet := b.Instrs[len(b.Instrs)-1].(*ssa.Return); !isRet {
+			continue
+		}
+		if call.Block() == b || call.Block().Dominates(b) {
+			continue
+		}
+		nEarly++
+		refuted := false
+		for _, dl := range datas {
+			all := true
+			for _, w := range fi.flagWays(b) {
+				if !fi.refute(w, []Fact{{linConst(1).sub(dl), LE}}, 0) {
+					all = false
+				}
+			}
+			if all {
+				refuted = true
+			}
+		}
+		if !refuted {
+			okEarly = false
+		}
+	}
+	c.check(okEarly, name+":segments:reached", call.Pos(), fmt.Sprintf("the edge builder returns without calling suffix.Segments only for empty data (%d early return(s))", nEarly),
+		"the edge builder can return in front of the suffix.Segments call although there is data: no edges, every block is emitted as literals (not a minimum-cost parse, runs stay uncompressed)")
+	// maxLen is the maximum of the LCP table (clamped): a φ of a loop that ranges over the very table passed to
+	// Segments and takes the element whenever it exceeds the φ
+	okScan := false
+	var walkMax func(v ssa.Value, d int)
+	walkMax = func(v ssa.Value, d int) {
+		if d > 6 || okScan {
+			return
+		}
+		switch x := stripConv(v).(type) {
+		case *ssa.Phi:
+			if l := fi.loopOf(x.Block()); l != nil && l.Header == x.Block() {
+				for i, p := range x.Block().Preds {
+					if !l.Blocks[p] {
+						continue
+					}
+					// the back-edge value: φ(x, elem) taken under elem > x, elem an element of args[1]
+					for _, lf := range mergeLeaves(x.Edges[i]) {
+						el, isLd := stripConv(lf.V).(*ssa.UnOp)
+						if !isLd || el.Op != token.MUL {
+							continue
+						}
+						ia, isIA := el.X.(*ssa.IndexAddr)
+						if !isIA || ia.X != args[1] {
+							continue
+						}
+						from := lf.Pred
+						if from == nil {
+							from = p
+						}
+						for _, cd := range fi.condsAt(from) {
+							u := unNot(cd)
+							if bo, isBo := u.V.(*ssa.BinOp); isBo {
+								gt := (bo.Op == token.GTR && bo.X == ssa.Value(el) && bo.Y == ssa.Value(x) && u.True) ||
+									(bo.Op == token.LSS && bo.Y == ssa.Value(el) && bo.X == ssa.Value(x) && u.True) ||
+									(bo.Op == token.GEQ && bo.X == ssa.Value(el) && bo.Y == ssa.Value(x) && u.True)
+								if gt {
+									okScan = true
+								}
+							}
+						}
+					}
+				}
+			}
+			for _, e := range x.Edges {
+				if e != ssa.Value(x) {
+					walkMax(e, d+1)
+				}
+			}
+		case *ssa.Call:
+			if bi, isB := x.Call.Value.(*ssa.Builtin); isB && (bi.Name() == "min" || bi.Name() == "max") {
+				for _, a := range x.Call.Args {
+					walkMax(a, d+1)
+				}
+			}
+			// slices.Max(lcp) and the like
+			if callee := x.Call.StaticCallee(); callee != nil && callee.Name() == "Max" && len(x.Call.Args) == 1 && x.Call.Args[0] == args[1] {
+				okScan = true
+			}
+		}
+	}
+	walkMax(args[3], 0)
+	c.check(okScan, name+":segments:maxLen-is-max", call.Pos(), "the maxLen passed to suffix.Segments is the largest entry of the LCP table (clamped by MaxMatchLen)",
+		"the maxLen passed to suffix.Segments is not the running maximum of the LCP table it is called with (no loop over that table that takes every larger element): with a smaller bound the groups of longer common prefixes are cut short or not reported at all")
 }
 
 // ---------------------------------------------------------------- R-OSAP-FASTPATH
@@ -1447,6 +1651,20 @@ func ruleOsapFastPath(c *Ctx) {
 		}
 		if guard != nil {
 			cuts = append(cuts, shortcut{b, guard})
+			continue
+		}
+		// a literal-only return that does not stand behind "<edge count> == 0": the block is emitted as
+		// literals although the DP might find matches (or the test has its sense turned round)
+		reachesDP := false
+		for _, pb := range parse.Blocks {
+			for _, in := range pb.Instrs {
+				if call, ok := in.(*ssa.Call); ok && call.Call.StaticCallee() == o.dp && (pb == b || pb.Dominates(b)) {
+					reachesDP = true
+				}
+			}
+		}
+		if !reachesDP {
+			c.fail(fmt.Sprintf("lz.(*%s).Parse:shortcut-unguarded", o.p.Name), b.Instrs[len(b.Instrs)-1].Pos(), "a return that hands out the block as literals without running the DP is not guarded by a test \"number of edges == 0\": blocks that have matches are emitted as literals (not a minimum-cost parse; runs stay uncompressed)")
 		}
 	}
 	if len(cuts) == 0 {
@@ -1584,6 +1802,40 @@ func ruleSlotCap(c *Ctx) {
 							okStride = true
 						}
 					}
+				}
+				// the table of slots is sized anew on every way to the slot loop: a re-slice dropped on one branch leaves
+				// the length the previous fill (or a reset) gave it — a table that claims to cover positions it has no
+				// edges for, or none at all
+				// (only the table of slots: the slot expression itself is checked against the capacity of the shared
+				// buffer, not against its length, so a stale length of the buffer is harmless — a sub-agent asked
+				// for a demonstration of the opposite showed that)
+				for _, F := range []*types.Var{dstF} {
+					avoid := map[*ssa.BasicBlock]bool{}
+					for _, sb := range fn.Blocks {
+						for _, sin := range sb.Instrs {
+							if st2, isSt := sin.(*ssa.Store); isSt && fieldOfAddr(st2.Addr) == F {
+								avoid[sb] = true
+							}
+						}
+					}
+					seenB := map[*ssa.BasicBlock]bool{}
+					stack := []*ssa.BasicBlock{fn.Blocks[0]}
+					reached := false
+					for len(stack) > 0 {
+						x := stack[len(stack)-1]
+						stack = stack[:len(stack)-1]
+						if seenB[x] || avoid[x] {
+							continue
+						}
+						seenB[x] = true
+						if x == b {
+							reached = true
+							break
+						}
+						stack = append(stack, x.Succs...)
+					}
+					c.check(!reached && len(avoid) > 0, fmt.Sprintf("%s:sized:%s", key, F.Name()), st.Pos(), F.Name()+" is sized anew on every way to the slot loop",
+						fmt.Sprintf("%s is not (re)sized on every way to the loop that hands out the slots: it keeps the length of the previous fill, so the table claims positions it has no edges for (stale matches are emitted) or the slot expression runs past the buffer", F.Name()))
 				}
 				c.check(okD && okStride, key, st.Pos(), fmt.Sprintf("slot %s[%s] = %s[lo:…:lo+%d] with lo = %s: capacity limited to the slot, slots do not overlap", dstF.Name(), idx, srcF.Name(), d.c, lo),
 					fmt.Sprintf("the slot %s[%s] carved out of %s is not limited to its own region (max − low = %s, low = %s): an append to one slot can overwrite the next", dstF.Name(), idx, srcF.Name(), d, lo))
